@@ -134,6 +134,9 @@ def mutations(base):
             subs.append(("unknown-event", m[0] + m[1] + "~", p, j) if m[:2] not in ("OB", "OU") else
                         ("unknown-event", "O~~", p, j))
             subs.append(("unknown-event", m[0] + "~" + m[2], p, j))
+            # a declared code with the top bit of one byte set (no table holds bytes >= 0x80)
+            hb = k % 3
+            subs.append(("unknown-event", m[:hb] + chr(ord(m[hb]) | 0x80) + m[hb + 1:], p, j))
             for ws in SIZE_CHECKED.get(m, []):
                 subs.append(("payload-size", m, bytes(ws), False))
             if j:
